@@ -53,6 +53,12 @@ TABLE: list[ClassDef] = [
     ClassDef("Base", "ASTNode"),
     ClassDef("LeafA", "Base", [FieldDef("v", "int", "int", "0")]),
     ClassDef("LeafB", "Base", [FieldDef("v", "int", "int", "0")]),
+    # a node class that implements the Collection protocol itself, and a holder typed with exactly that class
+    ClassDef("CollBlock", "Base", [FieldDef("stmts", "tuple[Base, ...]", "tuple", "()", classes=ANY)],
+             extra_body="\n    def __len__(self):\n        return len(self.stmts)\n\n    def __iter__(self):\n        return iter(self.stmts)\n\n"
+                        "    def __contains__(self, x):\n        return any(x is s for s in self.stmts)\n"),
+    ClassDef("Fn", "Base", [FieldDef("body", "CollBlock", "one", None, classes=("CollBlock",)),
+                            FieldDef("alt", "CollBlock | None", "opt", "None", classes=("CollBlock",))]),
     # child fields typed through a NewType alias of a node class, nested in a tuple / an Optional
     ClassDef("NtBox", "Base", [FieldDef("kids", "tuple[KidRef, ...]", "tuple", "()", classes=("LeafA",)),
                                FieldDef("one", "Optional[KidRef]", "opt", "None", classes=("LeafA",))],
@@ -501,6 +507,8 @@ def warm(order: str) -> None:
             kw["one"] = cls("LeafB")(v=9)
         if name == "Seq":
             kw["pair"] = (cls("LeafA")(v=9), cls("LeafB")(v=9))
+        if name == "Fn":
+            kw["body"] = cls("CollBlock")()
         n = c(**kw)
         list(n.get_properties())
         list(n.get_child_nodes())
